@@ -546,19 +546,6 @@ def check_protocols_fold(run, tree):
             run.violated(construct, m.where(), "raises %s" % e, "np.<f>(a)")
         except ERR as e:
             run.unresolved(construct, m.where(), "cannot fold: %s" % e)
-    m = tree.method(base, "__array_ufunc__")
-    if m is not None:
-        for method in ("reduce", "accumulate", "outer", "at"):
-            construct = "core/base.py::Base.__array_ufunc__[method=%s]" % method
-            try:
-                rec.clear()
-                ev = ModelEval(tree, m, {}, hk)
-                res = ev.invoke(m, [a, f, method, a], {}, None)
-                ok = isinstance(res, Marker) and res.data[0] == "NotImplemented" and not rec
-                run.ob(construct, ok, m.where(), "ufunc.%s -> %r" % (method, res), "np.add.reduce(a) returns numbers labelled by a rule written for calls",
-                       nontrivial=False)
-            except (Raised,) + ERR as e:
-                run.unresolved(construct, m.where(), "cannot fold: %s" % e)
 
 
 # =============================================================================== Array.__init__ / __getitem__
